@@ -546,36 +546,49 @@ class SimWorld:
         n_pk = len(self.lab.packages)
         accepted = []  # (kind, order, market_version)
         executes = 0
-        with market.transaction(client=client) as t:
-            for item in e["items"]:
-                if item["op"] == "execute":
-                    t.execute()
-                    executes += 1
-                    continue
-                if item["op"] == "bulk_place":
-                    for i in range(item["n"]):
-                        tick = item["tick"] + (i % 7)
-                        op = {"op": "place", "r": item.get("r", 0), "side": item.get("side", "BACK"), "type": "LIMIT", "tick": tick,
-                              "size": 2.0, "pers": "LAPSE", "mv": item.get("mvs", [None])[i % len(item.get("mvs", [None]))]}
-                        rec = self.request({"_": "req", "si": e.get("si", 0), **op}, transaction=t)
-                        if rec and rec["accepted"]:
-                            accepted.append(("place", rec["order"], self._mv(op.get("mv"))))
-                elif item["op"] == "bulk":
-                    pool = [o for o in strat.my_orders if sname(o.status) == "EXECUTABLE"][: item["n"]]
-                    for j, o in enumerate(pool):
-                        op = {"op": item["kind"], "o": strat.my_orders.index(o)}
-                        if item["kind"] == "replace":
-                            op["ticks"] = item.get("ticks", 3)
-                        if item["kind"] == "update":
-                            op["pers"] = "PERSIST" if o.order_type.persistence_type != "PERSIST" else "LAPSE"
-                        rec = self.request({"_": "req", "si": e.get("si", 0), **op, "pool": "any"}, transaction=t)
-                        if rec and rec["accepted"]:
-                            accepted.append((item["kind"], rec["order"], None))
-                else:
-                    rec = self.request({"_": "req", "si": e.get("si", 0), **item}, transaction=t)
-                    if rec and rec["accepted"]:
-                        accepted.append((item["op"], rec["order"], self._mv(item.get("mv")) if item["op"] in ("place", "replace") else None))
+        class _Escape(Exception):
+            pass
+
+        def maybe_escape(rec_):
+            # a strategy that does not catch the error of a rejected request lets it leave the `with` block
+            if e.get("raise_through") and rec_ is not None and rec_["res"].error:
+                self.classes.add("transaction-left-by-exception")
+                raise _Escape()
+
+        try:
+          with market.transaction(client=client) as t:
             txn = t
+            for item in e["items"]:
+                  if item["op"] == "execute":
+                      t.execute()
+                      executes += 1
+                      continue
+                  if item["op"] == "bulk_place":
+                      for i in range(item["n"]):
+                          tick = item["tick"] + (i % 7)
+                          op = {"op": "place", "r": item.get("r", 0), "side": item.get("side", "BACK"), "type": "LIMIT", "tick": tick,
+                                "size": 2.0, "pers": "LAPSE", "mv": item.get("mvs", [None])[i % len(item.get("mvs", [None]))]}
+                          rec = self.request({"_": "req", "si": e.get("si", 0), **op}, transaction=t)
+                          if rec and rec["accepted"]:
+                              accepted.append(("place", rec["order"], self._mv(op.get("mv"))))
+                  elif item["op"] == "bulk":
+                      pool = [o for o in strat.my_orders if sname(o.status) == "EXECUTABLE"][: item["n"]]
+                      for j, o in enumerate(pool):
+                          op = {"op": item["kind"], "o": strat.my_orders.index(o)}
+                          if item["kind"] == "replace":
+                              op["ticks"] = item.get("ticks", 3)
+                          if item["kind"] == "update":
+                              op["pers"] = "PERSIST" if o.order_type.persistence_type != "PERSIST" else "LAPSE"
+                          rec = self.request({"_": "req", "si": e.get("si", 0), **op, "pool": "any"}, transaction=t)
+                          if rec and rec["accepted"]:
+                              accepted.append((item["kind"], rec["order"], None))
+                  else:
+                      rec = self.request({"_": "req", "si": e.get("si", 0), **item}, transaction=t)
+                      if rec and rec["accepted"]:
+                          accepted.append((item["op"], rec["order"], self._mv(item.get("mv")) if item["op"] in ("place", "replace") else None))
+                      maybe_escape(rec)
+        except _Escape:
+            pass
         pk = self.lab.packages[n_pk:]
         if "noeffect" in self.checks:
             self.check_packages(accepted, pk, txn)
@@ -712,6 +725,9 @@ class SimWorld:
                     self.fail("trade-count-mismatch", (), "runner context counts %d trades, %d distinct trades were placed" % (len(rc.trades), len(exp_all)))
                 if sorted(rc.live_trades) != sorted(exp_live):
                     kindf = "charged-but-complete" if len(rc.live_trades) > len(exp_live) else "live-but-not-charged"
+                    odd = [t for t in trades if (t.id in rc.live_trades) != (t.id in exp_live)]
+                    if odd and all(sum(1 for x in t.status_log if sname(x) == "COMPLETE") >= 1 and sname(t.status) == "COMPLETE" for t in odd) and kindf == "charged-but-complete":
+                        kindf = "charged-but-complete,order-added-to-completed-trade-finished-before-its-placement-response"
                     self.fail("live-trade-mismatch", (kindf,), "runner context live trades %d, trades with a live order %d; trades: %s" % (
                         len(rc.live_trades), len(exp_live), [(sname(t.status), [sname(o.status) for o in t.orders]) for t in trades]))
                 for t in trades:
@@ -976,6 +992,8 @@ def make_machine(world_cls, checks, cfg_strategy, rule_weights=None):
             op["si"] = d(st.integers(0, self.ns - 1))
             tr = d(st.sampled_from(["new", "new", "new", 0, 1, 2]))
             op["trade"] = tr
+            if tr != "new" and d(st.integers(0, 1)):
+                op["reuse_completed_trade"] = True  # e.g. a hedge placed in a trade whose first order already completed
             if d(st.integers(0, 9)) == 0:
                 op["force"] = True
             for k_ in ("reset_seconds", "place_reset_seconds"):
@@ -1090,9 +1108,9 @@ def make_machine(world_cls, checks, cfg_strategy, rule_weights=None):
                     items.append({"op": "execute"})
                 else:
                     op = d(gen.follow_op())
-                    op["pool"] = "exec"
+                    op["pool"] = d(st.sampled_from(["exec", "exec", "any"]))
                     items.append(op)
-            self._do({"_": "txn", "si": d(st.integers(0, self.ns - 1)), "items": items})
+            self._do({"_": "txn", "si": d(st.integers(0, self.ns - 1)), "items": items, "raise_through": d(st.booleans())})
 
         @precondition(lambda self: rw["bulk"] > 0)
         @rule(data=st.data())
